@@ -103,7 +103,7 @@ theorem flatten_sem (l1 l2 gcs : List PTree) (s : List String)
 
 theorem flatten_good (F : List (List String)) (l1 l2 gcs : List PTree) :
     Good F (.node .or (l1 ++ .node .or gcs :: l2)) (.node .or (l1 ++ l2 ++ gcs)) := by
-  refine ⟨fun s _ _ h => flatten_sem l1 l2 gcs s h, fun h => flatten_sem l1 l2 gcs [] h, ?_, ?_⟩
+  refine ⟨fun s _ h => flatten_sem l1 l2 gcs s h, ?_, ?_⟩
   · intro x hx
     simp only [PTree.labels, labelsL_append, PTree.labelsL, List.mem_append] at hx ⊢
     rcases hx with (h | h) | h
